@@ -627,11 +627,10 @@ theorem tables_placeholder_names :
     compType tables.placeholderNonRep = "Placeholder_NonRep" := by
   refine ⟨?_, by decide, by decide, by decide⟩
   intro nm hnm q
-  have hk : (tables.eqCleanPlain.contains nm = false) ∧
-      (tables.eqCleanMeth.any (fun p => hasInfix p nm) = false) := by
+  have hk : ¬ nm ∈ tables.eqCleanPlain ∧ ∀ x ∈ tables.eqCleanMeth, hasInfix x nm = false := by
     revert nm
     decide
-  simp [cleanedCells, hk.1, hk.2]
+  simpa [cleanedCells] using hk
 
 /-- the number of placeholder components of a site with numeric equipment: `⌈rate·730⌉` split over
 `k` groups (`⌈count/k⌉` each) -/
@@ -644,9 +643,7 @@ theorem structure_placeholder_counts (tb : Tables) (files : Files) (d : Dict Str
   have hfl : ∀ n : Nat, cellCount (.num (n : Rat)) = n := by
     intro n
     simp only [cellCount]
-    have : ((n : Rat)).floor = (n : Int) := by
-      have := Rat.floor_intCast (n : Int)
-      simpa using this
+    have : ((n : Rat)).floor = (n : Int) := Rat.floor_intCast (n : Int)
     rw [this]; rfl
   by_cases hk : k = 0
   · simp [siteGroups, hk, hfl]
@@ -659,5 +656,238 @@ theorem structure_placeholder_counts (tb : Tables) (files : Files) (d : Dict Str
       obtain ⟨i, _, hi⟩ := hb
       rw [← hi]
       simp [hfl]
+
+/-! ## 6. the property -/
+
+/-- the values the chain of levels prescribes for a source (row `R`, repairable flag `rep`) of a
+component of the equipment group with row `E` (one of `nG` groups) of a site with row `S` and site
+type row `T` -/
+structure SourceSpec (tb : Tables) (methods : List String) (G : Dict String) (Gm : Dict MKey)
+    (T : Option Row) (S E R : Row) (nG : Nat) (rep : Bool) (s : SourceEff) : Prop where
+  ers : s.ers = resolve (upper T S E (tb.prefixOf rep ++ tb.srcErs) ++ [R.get? tb.srcErs]) (G.get (tb.prefixOf rep ++ tb.srcErs))
+  dur : s.dur = resolve (upper T S E (tb.prefixOf rep ++ tb.srcDur) ++ [R.get? tb.srcDur]) (G.get (tb.prefixOf rep ++ tb.srcDur))
+  multi : s.multi = resolve (upper T S E (tb.prefixOf rep ++ tb.srcMulti) ++ [R.get? tb.srcMulti]) (G.get (tb.prefixOf rep ++ tb.srcMulti))
+  repair : rep = true →
+    s.rd = resolve (upper T S E (tb.prefixOf rep ++ tb.srcRd) ++ [R.get? tb.srcRd]) (G.get (tb.prefixOf rep ++ tb.srcRd)) ∧
+    s.rc = resolve (upper T S E (tb.prefixOf rep ++ tb.srcRc) ++ [R.get? tb.srcRc]) (G.get (tb.prefixOf rep ++ tb.srcRc))
+  epr : s.epr = resolve [R.get? tb.srcEpr]
+      ((resolve [E.get? (tb.prefixOf rep ++ tb.srcEpr)]
+        ((resolve [typeGet T (tb.prefixOf rep ++ tb.srcEpr), S.get? (tb.prefixOf rep ++ tb.srcEpr)]
+            (G.get (tb.prefixOf rep ++ tb.srcEpr))).divNat nG)).divPos (totalComponents tb E))
+  spatial : s.spatial = methods.map (fun me =>
+      resolve (upper T S E (me ++ tb.srcSpatial) ++ [R.get? (me ++ tb.srcSpatial)]) (Gm.get (me, tb.srcSpatial)))
+  temporal : s.temporal = methods.map (fun me =>
+      resolve (upper T S E (me ++ tb.srcTemporal) ++ [R.get? (me ++ tb.srcTemporal)]) (Gm.get (me, tb.srcTemporal)))
+
+/-- every source the model creates from a row of the sources file (or as single-kind placeholder)
+carries the prescribed values -/
+theorem source_spec (tb : Tables) (hw : tb.WF) (methods : List String) (G : Dict String)
+    (Gm : Dict MKey) (T : Option Row) (S E R : Row) (nG : Nat) (sid : String) (rep : Bool) :
+    SourceSpec tb methods G Gm T S E R nG rep
+      (sourceEff tb methods sid rep R (compCtx tb methods G Gm T S E nG) (groupCtx tb methods G Gm T S E nG).2) := by
+  have h1 := source_most_granular_wins tb hw methods G Gm T S E R nG sid rep (groupCtx tb methods G Gm T S E nG).2
+  have h2 := source_production_rate_spec tb hw methods G Gm T S E R nG sid rep (groupCtx tb methods G Gm T S E nG).2
+  have h3 := source_coverage_most_granular_wins tb hw methods G Gm T S E R nG sid rep (compCtx tb methods G Gm T S E nG)
+  simp only at h1 h3
+  exact ⟨h1.1, h1.2.1, h1.2.2.1, h1.2.2.2.1, h2, h3.1, h3.2⟩
+
+/-- C15 at full strength over the model instantiated with the key tables extracted from the source:
+for all parameter files, infrastructure files and samples —
+ (1) every source built from a sources-file row carries, for every propagating parameter, the value of
+     the most granular level that specifies it (production rate: with the split over groups and
+     components), and such a source is what every component of every group of every site holds;
+ (2) every group's survey time/cost and every site's frequency / months / years / deployment likewise;
+ (3) without equipment-level overrides the components' production rates, the groups' survey costs
+     and times add back up to the site value;
+ (4) a sample of `n` distinct rows gives exactly `n` sites, with distinct ids when the file's ids are
+     distinct, each with the groups, components and sources the files describe. -/
+def C15_statement : Prop :=
+  ∀ (methods : List String) (G : Dict String) (Gm : Dict MKey) (files : Files),
+    -- (1) sources
+    (∀ (T : Option Row) (S E R : Row) (nG : Nat) (sid : String) (rep : Bool),
+      SourceSpec tables methods G Gm T S E R nG rep
+        (sourceEff tables methods sid rep R (compCtx tables methods G Gm T S E nG)
+          (groupCtx tables methods G Gm T S E nG).2)) ∧
+    (∀ (s : SiteRow) (ty : String) (rows : List SrcRow), files.sources = some rows →
+      ty ≠ compType tables.placeholderBoth → ty ≠ compType tables.placeholderRep →
+      ty ≠ compType tables.placeholderNonRep →
+      ∀ g ∈ groupsOf tables methods G Gm files s,
+        componentSources tables methods files ty
+            (compCtx tables methods G Gm (typeRowOf files s) s.cells g.2.1 g.2.2)
+            (groupCtx tables methods G Gm (typeRowOf files s) s.cells g.2.1 g.2.2).2
+          = (rows.filter (fun r => r.comp = ty)).map (fun r =>
+              sourceEff tables methods r.sid r.rep r.cells
+                (compCtx tables methods G Gm (typeRowOf files s) s.cells g.2.1 g.2.2)
+                (groupCtx tables methods G Gm (typeRowOf files s) s.cells g.2.1 g.2.2).2)) ∧
+    -- (2) groups and sites
+    (∀ (s : SiteRow),
+      (buildSite tables methods G Gm files s).groups
+        = (groupsOf tables methods G Gm files s).map (fun g =>
+            groupAt tables methods files G Gm (typeRowOf files s) s.cells g.1 g.2.1 g.2.2) ∧
+      (∀ g ∈ groupsOf tables methods G Gm files s,
+        let grp := groupAt tables methods files G Gm (typeRowOf files s) s.cells g.1 g.2.1 g.2.2
+        let spec := fun p me => resolve [g.2.1.get? (me ++ p)]
+          ((resolve [typeGet (typeRowOf files s) (me ++ p), s.cells.get? (me ++ p)] (Gm.get (me, p))).divNat g.2.2)
+        grp.gid = g.1 ∧ grp.times = methods.map (spec tables.eqTimeKey) ∧
+        grp.costs = methods.map (spec tables.eqCostKey) ∧
+        g.2.2 = (groupsOf tables methods G Gm files s).length ∧
+        grp.comps.map (·.cid) = (cleanedCells tables g.2.1).flatMap (fun c =>
+          (List.range (cellCount c.2)).map (fun i => compType c.1 ++ "_" ++ toString i)) ∧
+        ∀ c ∈ grp.comps, ∃ col ∈ cleanedCells tables g.2.1,
+          c.sources = componentSources tables methods files (compType col.1)
+            (compCtx tables methods G Gm (typeRowOf files s) s.cells g.2.1 g.2.2)
+            (groupCtx tables methods G Gm (typeRowOf files s) s.cells g.2.1 g.2.2).2) ∧
+      (let site := buildSite tables methods G Gm files s
+       let spec := fun p gv me =>
+         resolve [typeGet (typeRowOf files s) (me ++ p), s.cells.get? (me ++ p)] (gv me)
+       site.sid = s.sid ∧ site.stype = s.stype ∧
+       site.freq = methods.map (spec tables.freqKey (fun me => Gm.get (me, tables.freqKey))) ∧
+       site.months = methods.map (spec tables.monthsKey (fun me => Gm.get (me, tables.monthsKey))) ∧
+       site.years = methods.map (spec tables.yearsKey (fun me => Gm.get (me, tables.yearsKey))) ∧
+       site.deploy = methods.map (spec tables.siteDeploy (fun _ => PV.tru)))) ∧
+    -- (3) conservation
+    (∀ (s : SiteRow) (x : Rat), 0 ≤ x → groupsOf tables methods G Gm files s ≠ [] →
+      (∀ g ∈ groupsOf tables methods G Gm files s, totalComponents tables g.2.1 ≠ 0) →
+      (resolve [typeGet (typeRowOf files s) tables.eqRepEpr, s.cells.get? tables.eqRepEpr]
+            (G.get tables.eqRepEpr) = .num x →
+        NoGroupOverride (groupsOf tables methods G Gm files s) tables.eqRepEpr →
+        ((buildSite tables methods G Gm files s).groups.map
+          (fun g => (g.comps.map (fun c => numOf c.repRate)).sum)).sum = x) ∧
+      (resolve [typeGet (typeRowOf files s) tables.eqNonRepEpr, s.cells.get? tables.eqNonRepEpr]
+            (G.get tables.eqNonRepEpr) = .num x →
+        NoGroupOverride (groupsOf tables methods G Gm files s) tables.eqNonRepEpr →
+        ((buildSite tables methods G Gm files s).groups.map
+          (fun g => (g.comps.map (fun c => numOf c.nonRate)).sum)).sum = x)) ∧
+    (∀ (s : SiteRow) (i : Nat) (hi : i < methods.length) (x : Rat),
+      groupsOf tables methods G Gm files s ≠ [] →
+      (resolve [typeGet (typeRowOf files s) (methods[i] ++ tables.eqCostKey),
+                s.cells.get? (methods[i] ++ tables.eqCostKey)] (Gm.get (methods[i], tables.eqCostKey)) = .num x →
+        NoGroupOverride (groupsOf tables methods G Gm files s) (methods[i] ++ tables.eqCostKey) →
+        (buildSite tables methods G Gm files s).cost.getD i .nul = .num x) ∧
+      (resolve [typeGet (typeRowOf files s) (methods[i] ++ tables.eqTimeKey),
+                s.cells.get? (methods[i] ++ tables.eqTimeKey)] (Gm.get (methods[i], tables.eqTimeKey)) = .num x →
+        NoGroupOverride (groupsOf tables methods G Gm files s) (methods[i] ++ tables.eqTimeKey) →
+        (buildSite tables methods G Gm files s).time.getD i none = some (roundHalfEven x))) ∧
+    -- (4) the sites of the world
+    (∀ (picks : List Nat) (n : Nat), ValidPicks files.sites.length n picks →
+      (buildWorld tables methods G Gm files picks).length = n ∧
+      (buildWorld tables methods G Gm files picks).map (fun s => (s.sid, s.stype))
+        = picks.map (fun i => ((files.sites.getD i default).sid, (files.sites.getD i default).stype)) ∧
+      ((files.sites.map (·.sid)).Nodup → ((buildWorld tables methods G Gm files picks).map (·.sid)).Nodup))
+
+theorem C15 : C15_statement := by
+  intro methods G Gm files
+  have hw := tables_wf
+  refine ⟨?_, ?_, ?_, ?_, ?_, ?_⟩
+  · intro T S E R nG sid rep
+    exact source_spec tables hw methods G Gm T S E R nG sid rep
+  · intro s ty rows hrows h1 h2 h3 g _
+    exact structure_sources_file tables methods files ty _ _ rows hrows h1 h2 h3
+  · intro s
+    refine ⟨buildSite_groups tables methods G Gm files s, ?_, site_most_granular_wins tables hw methods G Gm files s⟩
+    intro g hg
+    have hsp := group_survey_spec tables hw methods files G Gm (typeRowOf files s) s.cells g.1 g.2.1 g.2.2
+    have hst := structure_components tables methods files G Gm (typeRowOf files s) s.cells g.1 g.2.1 g.2.2
+    simp only at hsp
+    refine ⟨hsp.1, hsp.2.1, hsp.2.2, siteGroups_divisor _ _ _ _ g hg, hst.1, ?_⟩
+    intro c hc
+    rw [groupAt_comps] at hc
+    simp only [List.mem_flatMap, List.mem_map] at hc
+    obtain ⟨col, hcol, i, _, hci⟩ := hc
+    exact ⟨col, hcol, by rw [← hci]⟩
+  · intro s x hx hgs hcomp
+    exact ⟨fun hsite hno => site_production_rate_conserved tables hw methods G Gm files s x hx hsite hgs hno hcomp,
+      fun hsite hno => site_production_rate_conserved_nonrep tables hw methods G Gm files s x hx hsite hgs hno hcomp⟩
+  · intro s i hi x hgs
+    exact ⟨fun hsite hno => site_cost_conserved tables hw methods G Gm files s i hi x hsite hgs hno,
+      fun hsite hno => site_time_conserved tables hw methods G Gm files s i hi x hsite hgs hno⟩
+  · intro picks n hv
+    exact ⟨site_count tables methods G Gm files picks n hv, site_ids tables methods G Gm files picks,
+      site_ids_distinct tables methods G Gm files picks n hv⟩
+
+/-! ## non-vacuity: a concrete world in which several levels specify the same parameters -/
+
+private def exFiles : Files :=
+  { hasTypes := true,
+    types := [{ name := "A", equip := .named "e1;e2",
+                cells := [("repairable_duration", .tok 10), ("M_survey_time", .num 90),
+                          ("M_surveys_per_year", .tok 31)] }],
+    sitesHaveEquip := false, typesHaveEquip := true,
+    sites := [{ sid := "7", stype := "A", equip := .bad,
+                cells := [("repairable_duration", .tok 11),
+                          ("repairable_emissions_production_rate", .num (3 / 8)),
+                          ("M_site_deployment", .tok 0)] },
+              { sid := "9", stype := "A", equip := .bad, cells := [] }],
+    equipment := [{ name := "e1", cells := [("c1", .num 2), ("c2", .num 1), ("repairable_duration", .tok 12),
+                                            ("M_spatial", .tok 41)] },
+                  { name := "e2", cells := [("c1", .num 1), ("c2", .num 1)] }],
+    sources := some [{ comp := "c1", sid := "s1", rep := true, cells := [("duration", .tok 13)] },
+                     { comp := "c2", sid := "s2", rep := true, cells := [] },
+                     { comp := "c1", sid := "s3", rep := false, cells := [("M_spatial", .tok 42)] }] }
+
+private def exG : Dict String :=
+  [("repairable_duration", .tok 9), ("non_repairable_duration", .tok 8),
+   ("repairable_emissions_production_rate", .num (1 / 4)),
+   ("non_repairable_emissions_production_rate", .num (1 / 8)),
+   ("repairable_emissions_rate_source", .tok 20), ("non_repairable_emissions_rate_source", .tok 21),
+   ("repairable_repair_delay", .tok 22), ("repairable_repair_cost", .tok 23),
+   ("repairable_multiple_emissions_per_source", .tok 1),
+   ("non_repairable_multiple_emissions_per_source", .tok 0)]
+
+private def exGm : Dict MKey :=
+  [(("M", "_survey_time"), .num 60), (("M", "_survey_cost"), .num 25), (("M", "_spatial"), .tok 40),
+   (("M", "_temporal"), .tok 43), (("M", "_surveys_per_year"), .tok 30), (("M", "_deploy_month"), .tok 44),
+   (("M", "_deploy_year"), .tok 45)]
+
+private def exWorld : List SiteEff := buildWorld tables ["M"] exG exGm exFiles [1, 0]
+
+/-- two distinct sites in the sampled order; the site row beats the site type row beats the method file
+(frequency 31 from the type, deployment switched off by the site row only at site 7); survey time 90
+from the type row is split 45 + 45 and adds back up, survey cost 25 likewise -/
+example :
+    exWorld.map (·.sid) = ["9", "7"] ∧ exWorld.map (·.freq) = [[.tok 31], [.tok 31]] ∧
+    exWorld.map (·.deploy) = [[.tru], [.tok 0]] ∧ exWorld.map (·.time) = [[some 90], [some 90]] ∧
+    exWorld.map (·.cost) = [[.num 25], [.num 25]] ∧
+    exWorld.map (fun s => s.groups.map (fun g => (g.gid, g.times, g.comps.map (·.cid))))
+      = [[("e1", [.num 45], ["c1_0", "c1_1", "c2_0"]), ("e2", [.num 45], ["c1_0", "c2_0"])],
+         [("e1", [.num 45], ["c1_0", "c1_1", "c2_0"]), ("e2", [.num 45], ["c1_0", "c2_0"])]] := by
+  decide +kernel
+
+/-- site 7: source s1 specifies its duration itself (13) wherever it sits; source s3 (non-repairable)
+inherits the global 8; source s2 gets the equipment row's 12 in group e1 and, in group e2 where nobody
+below the site specifies the repairable duration, the site row's 11 (not the type's 10, not the
+global 9); the site's production rate 3/8 is split over 2 groups and 3 resp. 2 components; coverage:
+source row over equipment row over method file -/
+example :
+    (exWorld.getD 1 default).groups.map (fun g => g.comps.map (fun c => c.sources.map (fun r => (r.sid, r.dur))))
+      = [[[("s1", .tok 13), ("s3", .tok 8)], [("s1", .tok 13), ("s3", .tok 8)], [("s2", .tok 12)]],
+         [[("s1", .tok 13), ("s3", .tok 8)], [("s2", .tok 11)]]] ∧
+    (exWorld.getD 1 default).groups.map (fun g => g.comps.map (fun c => c.sources.map (fun r => r.epr)))
+      = [[[.num (1 / 16), .num (1 / 48)], [.num (1 / 16), .num (1 / 48)], [.num (1 / 16)]],
+         [[.num (3 / 32), .num (1 / 32)], [.num (3 / 32)]]] ∧
+    (exWorld.getD 1 default).groups.map (fun g => g.comps.map (fun c => c.sources.map (fun r => r.spatial)))
+      = [[[[.tok 41], [.tok 42]], [[.tok 41], [.tok 42]], [[.tok 41]]], [[[.tok 40], [.tok 42]], [[.tok 40]]]] := by
+  decide +kernel
+
+/-- the hypotheses of the conservation theorems are satisfiable (site 7: rate 3/8, no equipment-level
+override, every group has components) and the component rates do add up to 3/8 -/
+example :
+    groupsOf tables ["M"] exG exGm exFiles (exFiles.sites.getD 0 default) ≠ [] ∧
+    (∀ g ∈ groupsOf tables ["M"] exG exGm exFiles (exFiles.sites.getD 0 default),
+        g.2.1.get? tables.eqRepEpr = none ∧ totalComponents tables g.2.1 ≠ 0) ∧
+    ((exWorld.getD 1 default).groups.map (fun g => (g.comps.map (fun c => numOf c.repRate)).sum)).sum = 3 / 8 := by
+  decide +kernel
+
+/-- numeric equipment: rate 1/100 → ⌈7.3⌉ = 8 placeholder components, 3 groups of ⌈8/3⌉ = 3 -/
+example :
+    (siteGroups tables exFiles (.count 3) [("repairable_emissions_production_rate", .num (1 / 100))]).map
+        (fun g => (g.1, g.2.1, g.2.2))
+      = [("0", [("Placeholder_Rep_Equipment", .num 3)], 3), ("1", [("Placeholder_Rep_Equipment", .num 3)], 3),
+         ("2", [("Placeholder_Rep_Equipment", .num 3)], 3)] := by
+  decide +kernel
+
+/-- Python `round`: ties to even -/
+example : roundHalfEven (5 / 2) = 2 ∧ roundHalfEven (7 / 2) = 4 ∧ roundHalfEven (-5 / 2) = -2 ∧
+    roundHalfEven (9 / 4) = 2 ∧ roundHalfEven (11 / 4) = 3 := by decide +kernel
 
 end LdarModel.Propagate
